@@ -1,11 +1,13 @@
 //! C15 — unrealised PnL of an open position tracks the instrument's latest price.
 //!
 //! Every op goes through the real `Engine::process` (trading disabled):
-//!   `init <n>`                                           engine with `n` instruments on one exchange
+//!   `init <n> [<x>]`                                     engine with `n` instruments; on one exchange, or (with
+//!                                                        `x` in 1..=5) instrument `k` on exchange label `k % x`
 //!   `fill <id> <instr> <time> <B|S> <price> <qty> <fee>` `EngineEvent::Account(Item(Trade))`
-//!   `trade <instr> <time> <price>`                       `EngineEvent::Market(Item(DataKind::Trade))`
+//!   `trade <instr> <time> <price> [B|S]`                 `EngineEvent::Market(Item(DataKind::Trade))` (taker side, default B)
 //!   `l1 <instr> <te> <tl> <bidP> <bidA> <askP> <askA>`   `EngineEvent::Market(Item(DataKind::OrderBookL1))`
-//!   `other <instr> <time>`                               a `Candle` (even time) / `Liquidation` (odd time) item
+//!   `other <instr> <time> [candle|liq|book]`             a price-less item: `Candle` / `Liquidation` / L2 `OrderBook`
+//!                                                        snapshot; without the kind: candle (even time) / liquidation (odd)
 //!
 //! Observations after each op, per instrument `i` (label = position in `init`):
 //!   `price<i>`  `InstrumentDataState::price()`
@@ -21,10 +23,15 @@ use barter::{
     execution::AccountStreamEvent,
 };
 use barter_data::{
-    books::Level,
+    books::{Level, OrderBook},
     event::{DataKind, MarketEvent},
     streams::consumer::MarketStreamEvent,
-    subscription::{book::OrderBookL1, candle::Candle, liquidation::Liquidation, trade::PublicTrade},
+    subscription::{
+        book::{OrderBookEvent, OrderBookL1},
+        candle::Candle,
+        liquidation::Liquidation,
+        trade::PublicTrade,
+    },
 };
 use barter_execution::{
     AccountEvent, AccountEventKind,
@@ -42,8 +49,11 @@ fn s2s(s: Side) -> &'static str {
     }
 }
 
-fn observe(engine: &TestEngine, map: &[usize], lines: &mut Vec<String>) {
-    for (i, idx) in map.iter().enumerate() {
+/// per instrument label: (position in the engine's instrument table, exchange label, `ExchangeIndex`)
+type Slot = (usize, usize, usize);
+
+fn observe(engine: &TestEngine, map: &[Slot], lines: &mut Vec<String>) {
+    for (i, (idx, _, _)) in map.iter().enumerate() {
         let st = engine.state.instruments.instrument_index(&InstrumentIndex(*idx));
         lines.push(format!("price{i} {}", fmt_opt_dec_approx(st.data.price())));
         lines.push(match &st.position.current {
@@ -66,10 +76,13 @@ fn observe(engine: &TestEngine, map: &[usize], lines: &mut Vec<String>) {
 
 /// `None` = malformed (`bad-op`). An instrument label the engine was not built with becomes an
 /// `InstrumentIndex` the engine does not have (the real code then panics by itself).
-fn parse_event(op: &[String], map: &[usize]) -> Option<Event> {
+fn parse_event(op: &[String], map: &[Slot]) -> Option<Event> {
     let idx = |label: usize| {
-        map.get(label).map(|k| InstrumentIndex(*k)).unwrap_or(InstrumentIndex(map.len() + 7))
+        map.get(label).map(|k| InstrumentIndex(k.0)).unwrap_or(InstrumentIndex(map.len() + 7))
     };
+    // exchange of the instrument (label 0 / index 0 for an unknown instrument: the code panics on the instrument)
+    let ex_label = |label: usize| map.get(label).map(|k| k.1).unwrap_or(0);
+    let ex_index = |label: usize| map.get(label).map(|k| k.2).unwrap_or(0);
     match (op[0].as_str(), op.len()) {
         ("fill", 8) => {
             let id: u64 = op[1].parse().ok()?;
@@ -83,12 +96,14 @@ fn parse_event(op: &[String], map: &[usize]) -> Option<Event> {
             let price: Decimal = op[5].parse().ok()?;
             let qty: Decimal = op[6].parse().ok()?;
             let fee: Decimal = op[7].parse().ok()?;
-            if qty <= Decimal::ZERO {
+            // fill price > 0: a position whose entry average is exactly 0 panics when it is exited (the tear
+            // sheet's calculate_pnl_return divides by price_entry_average * quantity_abs_max; C16's boundary)
+            if qty <= Decimal::ZERO || price <= Decimal::ZERO {
                 return None;
             }
             let instrument = idx(label);
             Some(EngineEvent::Account(AccountStreamEvent::Item(AccountEvent {
-                    exchange: ExchangeIndex(0),
+                    exchange: ExchangeIndex(ex_index(label)),
                     kind: AccountEventKind::Trade(Trade {
                         id: TradeId::new(id.to_string()),
                         order_id: OrderId::new(format!("o{id}")),
@@ -102,18 +117,23 @@ fn parse_event(op: &[String], map: &[usize]) -> Option<Event> {
                     }),
                 })))
         }
-        ("trade", 4) | ("other", 3) | ("l1", 8) => {
+        ("trade", 4) | ("trade", 5) | ("other", 3) | ("other", 4) | ("l1", 8) => {
             let label: usize = op[1].parse().ok()?;
             let te: i64 = op[2].parse().ok()?;
             let kind = match op[0].as_str() {
                 "trade" => {
                     // validated as a decimal literal first so that both sides reject the same text
                     let _: Decimal = op[3].parse().ok()?;
+                    let side = match op.get(4).map(|s| s.as_str()) {
+                        None | Some("B") => Side::Buy,
+                        Some("S") => Side::Sell,
+                        _ => return None,
+                    };
                     DataKind::Trade(PublicTrade {
                         id: "t".into(),
                         price: op[3].parse::<f64>().ok()?,
                         amount: 1.0,
-                        side: Side::Buy,
+                        side,
                     })
                 }
                 "l1" => {
@@ -132,7 +152,20 @@ fn parse_event(op: &[String], map: &[usize]) -> Option<Event> {
                     })
                 }
                 _ => {
-                    if te % 2 == 0 {
+                    let k = match op.get(3).map(|s| s.as_str()) {
+                        None => if te % 2 == 0 { "candle" } else { "liq" },
+                        Some(k @ ("candle" | "liq" | "book")) => k,
+                        _ => return None,
+                    };
+                    if k == "book" {
+                        // an L2 snapshot whose levels would give a mid price of 777 if anything read it
+                        DataKind::OrderBook(OrderBookEvent::Snapshot(OrderBook::new(
+                            te.unsigned_abs(),
+                            Some(time_ms(te)),
+                            vec![Level::new(Decimal::from(776), Decimal::ONE)],
+                            vec![Level::new(Decimal::from(778), Decimal::ONE)],
+                        )))
+                    } else if k == "candle" {
                         DataKind::Candle(Candle {
                             close_time: time_ms(te),
                             open: 1.0,
@@ -157,7 +190,7 @@ fn parse_event(op: &[String], map: &[usize]) -> Option<Event> {
                 time_exchange: time_ms(te),
                 // received later than any exchange timestamp used by the generators
                 time_received: time_ms(te + 100_000),
-                exchange: EXCHANGES[0],
+                exchange: EXCHANGES[ex_label(label)],
                 instrument,
                 kind,
             })))
@@ -169,31 +202,41 @@ fn parse_event(op: &[String], map: &[usize]) -> Option<Event> {
 fn run() {
     run_cases(|case, lines| {
         let mut built: Option<Built> = None;
-        let mut map: Vec<usize> = vec![];
+        let mut map: Vec<Slot> = vec![];
         for op in case.ops.iter() {
             lines.push("@".into());
             if op[0] == "init" {
-                let Some(n) = op.get(1).and_then(|s| s.parse::<usize>().ok()).filter(|_| op.len() == 2)
+                let x = match op.get(2) {
+                    None => Some(1usize),
+                    Some(s) => s.parse::<usize>().ok().filter(|x| (1..=EXCHANGES.len()).contains(x)),
+                };
+                let (Some(n), Some(x)) =
+                    (op.get(1).and_then(|s| s.parse::<usize>().ok()).filter(|_| op.len() <= 3), x)
                 else {
                     lines.push("bad-op".into());
                     continue;
                 };
                 let names: Vec<String> = (0..n).map(|k| format!("b{k}")).collect();
                 let defs: Vec<(usize, &str, &str)> =
-                    names.iter().map(|b| (0usize, b.as_str(), "usdt")).collect();
+                    names.iter().enumerate().map(|(k, b)| (k % x, b.as_str(), "usdt")).collect();
                 let instruments = build_instruments(&defs);
                 let b = build_engine(&instruments, &[], TradingState::Disabled);
                 map = (0..n)
                     .map(|i| {
-                        b.engine
+                        let ex = i % x;
+                        let pos = b
+                            .engine
                             .state
                             .instruments
                             .0
                             .values()
                             .position(|s| {
-                                s.instrument.name_internal.name().as_str() == format!("b{i}_usdt_x0")
+                                s.instrument.name_internal.name().as_str() == format!("b{i}_usdt_x{ex}")
                             })
-                            .unwrap()
+                            .unwrap();
+                        let ex_index =
+                            b.engine.state.connectivity.exchanges.get_index_of(&EXCHANGES[ex]).unwrap();
+                        (pos, ex, ex_index)
                     })
                     .collect();
                 observe(&b.engine, &map, lines);
@@ -326,6 +369,149 @@ fn gen_case(rng: &mut Rng, out: &mut Out, id: String, tier: &str) {
     }
 }
 
+// ------------------------------------------------------- input-domain family (`d…`, separately seeded)
+
+/// Value tables of one magnitude regime. Every product quantity x price stays below 1e8 and every literal has
+/// at most 9 significant digits, so `+ - x` are exact in `Decimal` and the division-derived fields stay within
+/// the 1e-18 comparison tolerance.
+struct Regime {
+    /// market prices (public trades)
+    prices: &'static [&'static str],
+    /// fill prices (must be > 0)
+    fill_prices: &'static [&'static str],
+    fees: &'static [&'static str],
+    books: &'static [(&'static str, &'static str, &'static str, &'static str)],
+    /// fill quantities in units of 10^-qty_scale
+    qty: &'static [i64],
+    qty_scale: u32,
+}
+
+const REGIMES: &[Regime] = &[
+    // the original tables (for the structural classes: many instruments, several exchanges, item kinds)
+    Regime { prices: PRICES, fill_prices: PRICES, fees: FEES, books: BOOKS, qty: &[5, 10, 15, 20, 30], qty_scale: 1 },
+    // tiny prices (down to 1e-8), large quantities
+    Regime {
+        prices: &["0.00001234", "0.0000125", "0.00000001", "0.00012", "0.000015", "0.00001234"],
+        fill_prices: &["0.00001234", "0.0000125", "0.00000001", "0.00012", "0.000015", "0.00001234"],
+        fees: &["0", "0.00000012", "0.0001", "-0.00000005", "0.02"],
+        books: &[
+            ("0.00001233", "1000", "0.00001235", "3000"),
+            ("0.0000124", "250000", "0.0000126", "250000"),
+            ("0.00000001", "1", "0.00000003", "1"),
+            ("0.00011", "0", "0.00013", "5000"),
+        ],
+        qty: &[1000, 2500, 100000, 1234567, 1],
+        qty_scale: 0,
+    },
+    // large prices (up to 1e7), small quantities (down to 1e-4)
+    Regime {
+        prices: &["1234567.89", "98765.4321", "1000000", "999999.99", "1000000.01", "9999999.9"],
+        fill_prices: &["1234567.89", "98765.4321", "1000000", "999999.99", "1000000.01", "9999999.9"],
+        fees: &["0", "0.00123", "12.5", "-0.75", "1000"],
+        books: &[
+            ("999999.99", "0.0005", "1000000.01", "0.0015"),
+            ("1234567.88", "0.0123", "1234567.9", "0.0123"),
+            ("98765", "2", "98766", "0.0001"),
+        ],
+        qty: &[1, 5, 123, 15000, 40],
+        qty_scale: 4,
+    },
+    // zero and negative MARKET prices (legal `Decimal` / `f64` values; spreads and some futures trade below
+    // zero); fills stay at small positive prices
+    Regime {
+        prices: &["0", "-5", "-0.5", "3", "100", "-100.25"],
+        fill_prices: &["0.5", "3", "5", "100"],
+        fees: FEES,
+        books: &[
+            ("-1", "1", "1", "1"),
+            ("-6", "2", "-4", "2"),
+            ("0", "1", "0", "3"),
+            ("-0.5", "0.7", "0.5", "0.3"),
+            ("99", "1", "101", "3"),
+        ],
+        qty: &[5, 10, 15, 20, 30],
+        qty_scale: 1,
+    },
+];
+
+fn gen_case_dom(rng: &mut Rng, out: &mut Out, id: String, tier: &str) {
+    out.case(id);
+    let r = &REGIMES[rng.below(REGIMES.len() as u64) as usize];
+    // up to 8 instruments on up to 3 exchanges (instrument k on exchange k % x)
+    let n = if rng.chance(50) { rng.range(1, 3) } else { rng.range(4, 8) } as usize;
+    let x = rng.range(1, 3.min(n as i64));
+    if x == 1 && rng.chance(50) {
+        out.line(format!("init {n}"));
+    } else {
+        out.line(format!("init {n} {x}"));
+    }
+    // traffic concentrates on few instruments so that positions live long enough
+    let hot = rng.range(1, 3.min(n as i64)) as u64;
+    let max_len = if tier == "thorough" { 60 } else { 30 };
+    let len = rng.range(1, max_len);
+    let fill_pct = *rng.pick(&[30u64, 50, 70]);
+    let stale_pct = *rng.pick(&[0u64, 20, 50]);
+    let mut nets = vec![0i64; n];
+    let mut time = 0i64;
+    let mut next_id = 1u64;
+    let q0 = r.qty[0];
+    for _ in 0..len {
+        let instr = if rng.chance(80) { rng.below(hot) as usize } else { rng.below(n as u64) as usize };
+        if rng.chance(70) {
+            time += rng.range(1, 4);
+        }
+        let t_ev = if rng.chance(stale_pct) { rng.range(0, time.max(1)) } else { time };
+        if rng.chance(fill_pct) {
+            let net = nets[instr];
+            let (buy, q) = if net != 0 && rng.chance(55) {
+                let a = net.abs();
+                let q = match rng.below(6) {
+                    0 => a,
+                    1 => a * 2,
+                    2 => a + *rng.pick(r.qty),
+                    3 | 4 => (a / 2).max(1),
+                    _ => a + q0,
+                };
+                (net < 0, q)
+            } else if net != 0 && rng.chance(50) {
+                (net > 0, *rng.pick(r.qty))
+            } else {
+                (rng.chance(50), *rng.pick(r.qty))
+            };
+            let price = *rng.pick(r.fill_prices);
+            let fee = *rng.pick(r.fees);
+            let id = next_id;
+            next_id += 1;
+            let t_fill = if rng.chance(stale_pct) { rng.range(0, time.max(1)) } else { time };
+            out.line(format!(
+                "fill {id} {instr} {t_fill} {} {price} {} {fee}",
+                if buy { "B" } else { "S" },
+                dec_str(q, r.qty_scale)
+            ));
+            nets[instr] += if buy { q } else { -q };
+        } else {
+            match rng.below(100) {
+                0..=44 => {
+                    let side = match rng.below(3) {
+                        0 => "",
+                        1 => " B",
+                        _ => " S",
+                    };
+                    out.line(format!("trade {instr} {t_ev} {}{side}", rng.pick(r.prices)))
+                }
+                45..=84 => {
+                    let (bp, ba, ap, aa) = *rng.pick(r.books);
+                    // 15 %: the payload's own time differs from the event time, in both directions (a payload
+                    // time ahead of the event times blocks later books until the event time passes it)
+                    let tl = if rng.chance(15) { rng.range(0, time + 6) } else { t_ev };
+                    out.line(format!("l1 {instr} {t_ev} {tl} {bp} {ba} {ap} {aa}"));
+                }
+                _ => out.line(format!("other {instr} {t_ev} {}", rng.pick(&["candle", "liq", "book", "book"]))),
+            }
+        }
+    }
+}
+
 fn generate(seed: u64, n_cases: usize, tier: &str) {
     let mut out = Out::new();
     let mut rng = Rng::new(seed);
@@ -377,6 +563,11 @@ fn generate(seed: u64, n_cases: usize, tier: &str) {
     for _ in 0..n_cases {
         id += 1;
         gen_case(&mut rng, &mut out, format!("r{id}"), tier);
+    }
+    let mut rng = Rng::new(seed ^ 0xD0D0_15);
+    for _ in 0..(n_cases / 2).max(16) {
+        id += 1;
+        gen_case_dom(&mut rng, &mut out, format!("d{id}"), tier);
     }
     out.flush();
 }
